@@ -47,11 +47,15 @@ def merge_binding(cur, nb):
 class Due(object):
     """One task execution the definition prescribes."""
 
-    def __init__(self, task, ctx, cause):
+    def __init__(self, task, ctx, cause, inst=()):
         self.task = task
         self.ctx = ctx  # var -> Binding
         self.cause = cause  # description for messages
         self.matched = False
+        # the instance of the execution: the split transitions control came through (the docs:
+        # a task with several inbound transitions and no join runs once per inbound transition,
+        # each run spawning its own instance of everything downstream)
+        self.inst = inst
 
     def visible(self):
         return {k: b.tok for k, b in self.ctx.items()}
@@ -62,14 +66,34 @@ class Oracle(object):
         self.wf = wf
         self.pid = 0
         self.pubs = {0: "init"}
-        self.arrived = {n: {} for n in wf.tasks if wf.is_join(n)}  # join -> pred -> ctx
-        self.join_ctx = {n: {} for n in self.arrived}
-        self.fired = {n: 0 for n in self.arrived}
+        self.joins = [n for n in wf.tasks if wf.is_join(n)]
+        self.arrived = {n: {} for n in self.joins}  # join -> pred -> True (all instances, for messages)
+        self.arrived_i = {}  # (join, instance) -> pred -> True
+        self.join_ctx = {}  # (join, instance) -> merged ctx
+        self.fired = {n: 0 for n in self.joins}
+        self.fired_i = {}
+        self.splits = {n for n in wf.tasks if not wf.is_join(n) and len(self._inbound_edges(n)) > 1 and not self._in_cycle(n)}
         self.failed = False
         self.fail_reasons = []
         self.executed = []
         self.cleanup = []  # tasks listed beside a fail command (documented clean-up)
         self.terminal_ctxs = []
+
+    def _inbound_edges(self, n):
+        return [(p, k) for p in self.wf.tasks for k, (_, _, do) in enumerate(self.wf.transitions(p)) if n in do]
+
+    def _in_cycle(self, n):
+        seen, todo = set(), [n]
+        while todo:
+            x = todo.pop()
+            for _, _, do in self.wf.transitions(x):
+                for t in do:
+                    if t == n:
+                        return True
+                    if t in self.wf.tasks and t not in seen:
+                        seen.add(t)
+                        todo.append(t)
+        return False
 
     def _new_pid(self, tok):
         self.pid += 1
@@ -106,7 +130,7 @@ class Oracle(object):
             return ok and ctx[cond[1]].tok >= cond[2]
         raise ValueError(cond)
 
-    def complete(self, task, octx, ok, bits, tokens):
+    def complete(self, task, octx, ok, bits, tokens, inst=()):
         """The execution of `task` that saw `octx` completed. tokens: (k, var) -> value token
         published by transition k. Returns the list of Due entries this completion causes."""
         self.executed.append(task)
@@ -143,15 +167,19 @@ class Oracle(object):
                 elif self.wf.is_join(tgt):
                     handled = True
                     self.arrived[tgt][task] = True
-                    acc = self.join_ctx[tgt]
+                    key = (tgt, inst)
+                    self.arrived_i.setdefault(key, {})[task] = True
+                    acc = self.join_ctx.setdefault(key, {})
                     for var, b in published.items():
                         acc[var] = merge_binding(acc.get(var), b)
-                    if len(self.arrived[tgt]) >= self.wf.need(tgt) and not self.fired[tgt]:
+                    if len(self.arrived_i[key]) >= self.wf.need(tgt) and not self.fired_i.get(key):
+                        self.fired_i[key] = 1
                         self.fired[tgt] += 1
-                        due.append(Due(tgt, dict(acc), "barrier of %s satisfied by %s" % (tgt, task)))
+                        due.append(Due(tgt, dict(acc), "barrier of %s satisfied by %s" % (tgt, task), inst))
                 else:
                     handled = True
-                    d = Due(tgt, dict(published), "%s transition %d" % (task, k))
+                    ninst = inst + ((task, k),) if tgt in self.splits else inst
+                    d = Due(tgt, dict(published), "%s transition %d" % (task, k), ninst)
                     due.append(d)
                     if beside_fail:
                         self.cleanup.append(tgt)
@@ -166,7 +194,7 @@ class Oracle(object):
         return due
 
     def unreachable_joins(self):
-        return sorted(j for j in self.arrived if self.arrived[j] and not self.fired[j])
+        return sorted({j for (j, i), a in self.arrived_i.items() if a and not self.fired_i.get((j, i))})
 
     def expected_final(self):
         if self.failed or self.unreachable_joins():
